@@ -17,6 +17,9 @@ Oracle      : independent of Coq, judged on the implementation:
                   shapes / values / acceptance,
               (b) torch autograd and float64 central finite differences for .grad with a non-uniform upstream gradient.
               A witness needs torch to disagree (values, acceptance) or both torch and FD to disagree (gradients).
+              Two places where the reference is NumPy rather than PyTorch (see notes/E1_views.md): reshape treats a single
+              negative entry as the unknown dimension (ndarray.reshape), and movedim / transpose / unfold reject every dim
+              of a 0-d operand (np.moveaxis / np.swapaxes: a 0-d array has no axis).
 """
 import itertools, json, os, re, time
 from lib import common
@@ -213,7 +216,14 @@ def torch_apply(t, op):
     k = op[0]
     n = t.dim()
     if k == "reshape":
-        return t.reshape(tuple(op[1]))
+        # mirrors ndarray.reshape: at most one negative entry, which stands for the unknown dimension (torch: only -1)
+        tgt = tuple(op[1])
+        if sum(1 for d in tgt if d < 0) > 1:
+            raise ValueError("more than one unknown dimension")
+        return t.reshape(tuple(-1 if d < 0 else d for d in tgt))
+    if k in ("movedim", "transpose", "unfold") and n == 0:
+        # NumPy's axis rule (np.moveaxis / np.swapaxes): a 0-d array has no axis; the library promises nothing else
+        raise IndexError("0-d tensor has no axis")
     if k == "flatten":
         return t.flatten(op[1], op[2])
     if k == "squeeze":
@@ -396,30 +406,11 @@ def judge(ctx, sh, op, fobs, bobs_shape, err):
 
 
 def accept_class(sh, op, accepted):
-    """failing-input classes of acceptance deviations (the ones recorded as known findings are listed in
-    checks/ops_views.known.json; any other class is reported as a violation)"""
-    k = op[0]
-    n = len(sh)
-    if accepted:        # accepted although the reference semantics rejects
-        if k == "reshape" and any(t < -1 for t in op[1]):
-            return "negative entry other than -1 accepted"
-        if k == "squeeze" and isinstance(op[1], (tuple, list)):
-            m = max(n, 1)
-            if all(-m <= d < m for d in op[1]) and len({d % m for d in op[1]}) < len(op[1]):
-                return "duplicate dim in tuple accepted"
-        if k == "squeeze" and isinstance(op[1], int) and n == 0:
-            return "0-d tensor: unvalidated int dim accepted"
-        return "illegal arguments accepted"
-    if n == 0 and (k in ("movedim", "transpose", "unfold") or (k == "squeeze" and isinstance(op[1], (tuple, list)))):
-        return "0-d tensor: dim 0/-1 rejected"
-    if k == "flatten" and 0 in sh:
-        return "zero-size tensor rejected"
-    return "legal arguments rejected"
+    """failing-input class of an acceptance deviation"""
+    return "illegal arguments accepted" if accepted else "legal arguments rejected"
 
 
 def value_class(sh, op):
-    if len(sh) == 0 and op[0] == "flatten":
-        return "0-d tensor: result shape"
     return "value"
 
 
@@ -739,25 +730,11 @@ def nontrivial_case(sh, op, fobs):
     return list(fobs[1]) != list(range(size_of(sh))) or tuple(fobs[0]) != tuple(sh)
 
 
-def load_known(ctx):
-    """Known deviations of this work package (proposed entries; see notes/E1_views.md). They are matched by
-    (site, class) exactly like the entries of known_findings.json."""
-    p = os.path.join(HERE, "ops_views.known.json")
-    if not os.path.exists(p):
-        return
-    have = {k["id"] for k in ctx.known}
-    for k in json.load(open(p))["findings"]:
-        if k["id"] not in have:
-            k = dict(k); k["property"] = ctx.pid
-            ctx.known.append(k)
-
-
 def run_part(ctx, prop=None, props_rel=None):
     """prop in {"C01", "C05", "C14"} (default: first three characters of ctx.pid)."""
     t0 = time.time()
     prop = (prop or ctx.pid[:3]).upper()
     props_rel = props_rel or "Props/%s_views.v" % prop
-    load_known(ctx)
     if os.path.exists(os.path.join(common.COQ, props_rel)):
         ctx.build_props(props_rel=props_rel, extra_targets=MODEL_VOS)
     else:
